@@ -190,6 +190,15 @@ func (t c06Tx) forbidden() (bool, string) {
 			return true, "unknown-extension-option"
 		}
 	}
+	// A list that starts with the dynamic-fee option selects the Cosmos route, whose
+	// checker knows no other option: whatever else rides along is unknown to it.
+	if len(exts) > 1 && exts[0] == "dynfee" {
+		for _, x := range exts[1:] {
+			if x != "dynfee" {
+				return true, "option-unknown-to-the-cosmos-route"
+			}
+		}
+	}
 	ethRoute := len(exts) > 0 && exts[0] == "eth"
 	if ethRoute {
 		for _, m := range t.Msgs {
